@@ -83,10 +83,14 @@ type cliCase struct {
 	thorough bool
 
 	dir   string
+	prog  string // name of the program file of this case (the stem matters for --bdump without a file name)
 	src   []byte
 	class string // ok, parse-fail, run-fail
 	fails int
 }
+
+// program file names: stems ending in every letter of ".bcl", with dots, one letter
+var cliProgNames = []string{"prog.bcl", "prog.bcl", "calc.bcl", "lib.bcl", "public.bcl", "a.b.bcl", "x.bcl", "bcl.bcl", "cc.bcl", "l.bcl"}
 
 var cliSubsets = func() []string {
 	var out []string
@@ -149,10 +153,10 @@ func cliProgram(r *rand.Rand, i int) (src []byte, kind string) {
 	return []byte(text), kind
 }
 
-func cliClassify(src []byte) string {
+func cliClassify(src []byte, name string) string {
 	return guarded(opTimeout, func() string {
 		var sink bytes.Buffer
-		p, err := bcl.Parse(src, "prog.bcl", bcl.OptOutput(&sink), bcl.OptLogger(&sink))
+		p, err := bcl.Parse(src, name, bcl.OptOutput(&sink), bcl.OptLogger(&sink))
 		if err != nil {
 			return "parse-fail"
 		}
@@ -172,11 +176,13 @@ func (c *cliCase) run() {
 	}
 	defer os.RemoveAll(c.dir)
 	var kind string
+	c.prog = cliProgNames[c.r.Intn(len(cliProgNames))]
+	c.res.Count("prog.name."+c.prog, 1)
 	c.src, kind = cliProgram(c.r, c.i)
-	if err := os.WriteFile(filepath.Join(c.dir, "prog.bcl"), c.src, 0o644); err != nil {
+	if err := os.WriteFile(filepath.Join(c.dir, c.prog), c.src, 0o644); err != nil {
 		fatalf("cli: %v", err)
 	}
-	c.class = cliClassify(c.src)
+	c.class = cliClassify(c.src, c.prog)
 	if kind == "empty" {
 		c.res.Count("prog.empty-or-blank", 1)
 	}
@@ -311,7 +317,7 @@ func (c *cliCase) mirror() {
 		sets = append(sets, "")
 	}
 	for k, fl := range sets {
-		files := []string{"prog.bcl", "-", ""}
+		files := []string{c.prog, "-", ""}
 		if k == 1 {
 			files = files[c.r.Intn(3):][:1]
 		}
@@ -329,7 +335,7 @@ func (c *cliCase) mirror() {
 // (c)+(e) every order, spelling and clustering of one vector gives one outcome
 // and one parsed record.
 func (c *cliCase) invariance() {
-	v := cliVec{flags: c.bigSubset(), file: []string{"prog.bcl", "prog.bcl", "-", ""}[c.r.Intn(4)]}
+	v := cliVec{flags: c.bigSubset(), file: []string{c.prog, c.prog, "-", ""}[c.r.Intn(4)]}
 	switch {
 	case c.r.Intn(4) == 0:
 		v.bdump, v.bdumpFile = 2, "inv.bcb"
@@ -429,32 +435,32 @@ func (c *cliCase) usageErrors() {
 		case 0:
 			kind = "unknown-short"
 			toks = c.insert(toks, "-"+string("abcefgijklmnopquvwxyz"[c.r.Intn(21)]))
-			toks = c.insert(toks, pick("prog.bcl", "-"))
+			toks = c.insert(toks, pick(c.prog, "-"))
 		case 1:
 			kind = "unknown-long"
 			toks = c.insert(toks, pick("--foo", "--disasmx", "--bdumpx", "--bloadfile", "--dis", "--Trace", "--stat", "--bdump-x", "--resul", "--d", "---trace"))
-			toks = c.insert(toks, pick("prog.bcl", "-"))
+			toks = c.insert(toks, pick(c.prog, "-"))
 		case 2:
 			kind = "unknown-nonletter"
 			toks = c.insert(toks, pick("-D", "-1", "-_", "-T", "-=", "-R"))
-			toks = c.insert(toks, "prog.bcl")
+			toks = c.insert(toks, c.prog)
 		case 3:
 			kind = "cluster-unknown-letter"
 			toks = c.insert(toks, pick("-dx", "-xd", "-tsq", "-rsa", "-zz", "-dtrsx"))
-			toks = c.insert(toks, "prog.bcl")
+			toks = c.insert(toks, c.prog)
 		case 4:
 			kind = "cluster-nonletter"
 			toks = c.insert(toks, pick("-d1", "-dT", "-t-", "-d=", "-rs.", "-dé", "-dtrS", "-s t", "-d-t"))
-			toks = c.insert(toks, "prog.bcl")
+			toks = c.insert(toks, c.prog)
 		case 5:
 			kind = "two-files"
-			toks = c.insert(toks, pick("prog.bcl", "-", "other.bcl"), pick("prog.bcl", "-", "other.bcl"))
+			toks = c.insert(toks, pick(c.prog, "-", "other.bcl"), pick(c.prog, "-", "other.bcl"))
 		case 6:
 			kind = "two-files-after-ddash"
 			if c.r.Intn(2) == 0 {
-				toks = append(toks, "--", pick("prog.bcl", "-"), pick("prog.bcl", "-d", "-"))
+				toks = append(toks, "--", pick(c.prog, "-"), pick(c.prog, "-d", "-"))
 			} else {
-				toks = append(c.insert(toks, "prog.bcl"), "--", pick("-d", "-t", "--stats", "prog.bcl"))
+				toks = append(c.insert(toks, c.prog), "--", pick("-d", "-t", "--stats", c.prog))
 			}
 		case 7:
 			kind = "bdump-underivable"
@@ -464,7 +470,7 @@ func (c *cliCase) usageErrors() {
 			}
 		case 8:
 			kind = "bload-conflict"
-			toks = c.insert(toks, "--bload="+pick("x.bcb", "prog.bcl"), pick("prog.bcl", "y.bcb", "-"))
+			toks = c.insert(toks, "--bload="+pick("x.bcb", c.prog), pick(c.prog, "y.bcb", "-"))
 		}
 		if c.r.Intn(3) == 0 && kind != "bdump-underivable" {
 			toks = c.insert(toks, "--bdump=usage.bcb")
@@ -513,7 +519,7 @@ func (c *cliCase) ioErrors() {
 	case 3:
 		kind, v = "bload-nonexistent", cliVec{flags: fl, bload: 2, bloadFile: "nosuch.bcb"}
 	case 4:
-		kind, v = "bload-not-a-dump", cliVec{flags: fl, bload: 1, file: "prog.bcl"}
+		kind, v = "bload-not-a-dump", cliVec{flags: fl, bload: 1, file: c.prog}
 	case 5:
 		kind, v = "bload-not-a-dump-stdin", cliVec{flags: fl, bload: 1, file: []string{"", "-"}[c.r.Intn(2)]}
 		stdin = c.src
@@ -522,7 +528,7 @@ func (c *cliCase) ioErrors() {
 			kind, v = "bdump-nonexistent-source", cliVec{flags: fl, bdump: 1, file: "nosuch.bcl"}
 			break
 		}
-		p, err := bcl.Parse(c.src, "prog.bcl", bcl.OptOutput(&bytes.Buffer{}), bcl.OptLogger(&bytes.Buffer{}))
+		p, err := bcl.Parse(c.src, c.prog, bcl.OptOutput(&bytes.Buffer{}), bcl.OptLogger(&bytes.Buffer{}))
 		if err != nil {
 			return
 		}
@@ -537,7 +543,7 @@ func (c *cliCase) ioErrors() {
 				stdin = cut
 			}
 		} else {
-			kind, v = "bdump-unwritable", cliVec{flags: fl, bdump: 2, bdumpFile: "nodir/x.bcb", file: "prog.bcl"}
+			kind, v = "bdump-unwritable", cliVec{flags: fl, bdump: 2, bdumpFile: "nodir/x.bcb", file: c.prog}
 		}
 	}
 	in, has := stdinFor(v, stdin)
@@ -561,7 +567,7 @@ func (c *cliCase) ioErrors() {
 func (c *cliCase) dumpLoad() {
 	fd := c.subset()
 	if c.class == "parse-fail" {
-		v := cliVec{flags: fd, bdump: 2, bdumpFile: "x.bcb", file: "prog.bcl"}
+		v := cliVec{flags: fd, bdump: 2, bdumpFile: "x.bcb", file: c.prog}
 		exp := cliExpectRun(v, c.dir, nil)
 		argv, _ := v.variant(c.r)
 		run := c.exec(argv, nil, false)
@@ -608,15 +614,15 @@ func (c *cliCase) dumpLoad() {
 		}
 		return got
 	}
-	x := dumpRun(cliVec{flags: fd, bdump: 2, bdumpFile: "x.bcb", file: "prog.bcl"}, "prog.bcl")
-	y := dumpRun(cliVec{flags: c.subset(), bdump: 1, file: "prog.bcl"}, "prog.bcl")
+	x := dumpRun(cliVec{flags: fd, bdump: 2, bdumpFile: "x.bcb", file: c.prog}, c.prog)
+	y := dumpRun(cliVec{flags: c.subset(), bdump: 1, file: c.prog}, c.prog)
 	s := dumpRun(cliVec{flags: c.subset(), bdump: 2, bdumpFile: "s.bcb", file: []string{"-", ""}[c.r.Intn(2)]}, "/dev/stdin")
 	if x == nil || y == nil || s == nil {
 		return
 	}
 
 	// load what the tool wrote
-	bfile, direct := "x.bcb", cliVec{file: "prog.bcl"}
+	bfile, direct := "x.bcb", cliVec{file: c.prog}
 	data := x
 	if c.r.Intn(3) == 0 {
 		bfile, direct, data = "s.bcb", cliVec{file: "-"}, s
@@ -673,7 +679,7 @@ func (c *cliCase) dumpLoad() {
 			c.res.Count("redump.differs", 1)
 		}
 	}
-	for _, f := range []string{"x.bcb", "prog.bcb", "s.bcb", "re.bcb"} {
+	for _, f := range []string{"x.bcb", strings.TrimSuffix(c.prog, ".bcl") + ".bcb", "s.bcb", "re.bcb"} {
 		os.Remove(filepath.Join(c.dir, f))
 	}
 }
@@ -714,7 +720,7 @@ func (c *cliCase) argsExtras() {
 		}
 		argv = c.insert(argv, h)
 		if c.r.Intn(2) == 0 {
-			argv = c.insert(argv, []string{"prog.bcl", "-", "nosuch.bcl"}[c.r.Intn(3)])
+			argv = c.insert(argv, []string{c.prog, "-", "nosuch.bcl"}[c.r.Intn(3)])
 		}
 		if !c.argsCheck("args", argv, "help=true\n", true, "-h among valid flags asks for help") {
 			return
